@@ -325,7 +325,7 @@ fn q2(case: &SpecialCase, ctx: &Ctx, rng: &mut Rng, out: &mut RunOut) {
 
 fn q4(case: &SpecialCase, ctx: &Ctx, rng: &mut Rng, out: &mut RunOut) {
     let trees = rng.range(1, 2);
-    let frames = trees * TREE_FRAMES - if rng.chance(1, 3) { rng.range(1, HUGE_FRAMES + 70) } else { 0 };
+    let frames = (trees * TREE_FRAMES).saturating_sub(if rng.chance(1, 3) { rng.range(1, HUGE_FRAMES + 70) } else { 0 }).max(64);
     let cfg = Config {
         frames,
         alloc_all: false,
